@@ -2,6 +2,7 @@ import Driver.CscIO
 import ClarabelModel.Chordal.AugStd
 import ClarabelModel.Chordal.Reverse
 import ClarabelModel.Chordal.AugCompact
+import ClarabelModel.Chordal.AugCompactFull
 import ClarabelModel.Chordal.PsdCompletion
 
 open Clarabel Clarabel.Chordal Driver
@@ -149,6 +150,13 @@ def handle (ch : String) (kv : KV) : String :=
         s!"{fmtCscP "A" r.1} b={fmtFloats r.2.1} {fmtCones "" r.2.2.1} {fmtConeMaps r.2.2.2}")
         (findCompactAbAndCones ci A b)
     | _, _, _ => "bad-request"
+  | "compact.augment" =>
+    match parseInfo kv, kv.csc "P", kv.floats "q", kv.csc "A", kv.floats "b" with
+    | some ci, some P, some q, some A, some b =>
+      fmtME (fun (r : Csc Float × Array Float × Csc Float × Array Float × Array Cone × Array ConeMapEntry) =>
+        s!"{fmtCscP "P" r.1} q={fmtFloats r.2.1} {fmtCscP "A" r.2.2.1} b={fmtFloats r.2.2.2.1} {fmtCones "" r.2.2.2.2.1} {fmtConeMaps r.2.2.2.2.2}")
+        (decompAugmentCompact ci P q A b)
+    | _, _, _, _, _ => "bad-request"
   | "compact.reverse" =>
     match parseInfo kv, parseConeMaps kv, parseCones kv "o", kv.floats "s", kv.floats "z" with
     | some ci, some cm, some oc, some s, some z =>
